@@ -39,13 +39,13 @@ MEMORY_ONLY = {"RESHAPE", "SQUEEZE", "EXPAND_DIMS", "CONCATENATION", "SPLIT", "S
 # convert_argmax_to_depthwise_conv_and_max_pool (NumPy 2; a C13 matter that is being repaired separately).  Until then the
 # ARG_MAX cases the report sends to the NPU are generated and judged by TLC's design invariants but not compiled; the
 # cases that must stay on the CPU are compiled as usual.  Set to True once the repair has landed.
-ARG_MAX_NPU_PATH_CASES = False
+ARG_MAX_NPU_PATH_CASES = True 
 # Further case classes that make the unchanged tree crash (no output model) although the report sends the operator to the
 # NPU.  Each is a genuine defect reported to the lead with a reproduction (harness/repro/c16_round4_findings.py); the class is
 # generated, judged by the design invariants, counted in the evidence, but not compiled while its switch is False.
-CONCAT_FUSED_ACTIVATION_CASES = False     # CONCATENATION with a fused activation: AssertionError in pass_packing.build_pass
-RESIZE_NN_ALIGN_CORNERS_CASES = False     # RESIZE_NEAREST_NEIGHBOR align_corners 2x/4x/8x, depth > 1: ValueError (reshape)
-UNQUANTISED_TRANSPOSE_CASES = False       # TRANSPOSE (exempt from 'must have quantization parameters') without them: AttributeError
+CONCAT_FUSED_ACTIVATION_CASES = True      # CONCATENATION with a fused activation: AssertionError in pass_packing.build_pass
+RESIZE_NN_ALIGN_CORNERS_CASES = True      # RESIZE_NEAREST_NEIGHBOR align_corners 2x/4x/8x, depth > 1: ValueError (reshape)
+UNQUANTISED_TRANSPOSE_CASES = True        # TRANSPOSE (exempt from 'must have quantization parameters') without them: AttributeError
 EXP_INT16_WIDE_RANGE = False              # EXP on int16 with scale 0.05 (|x| up to 1638): OverflowError in create_lut_int16_op
 
 
